@@ -877,6 +877,10 @@ def thr_scenarios(rng, quick):
         out.append("mode=%d conns=%d startdt=0 rounds=2 maxconn=0 late=1 deny=%d" % (mode, 3, rng.range(1, 3)))
         # the same server object run threadless first, then with its own threads (start / stop in any order, any number of times)
         out.append("mode=%d conns=%d startdt=%d rounds=%d maxconn=0 pre=1" % (mode, rng.range(1, 3), rng.below(2), rng.range(1, 2)))
+    # a start that fails (listening socket cannot be created), then destroy without stop / then ordinary rounds
+    for mode in (0, 1, 2):
+        out.append("mode=%d conns=1 startdt=0 rounds=0 maxconn=0 failstart=1" % mode)
+        out.append("mode=%d conns=2 startdt=1 rounds=1 maxconn=0 failstart=1" % mode)
     # the started connection of a redundancy group is lost and the master switches over at once (STARTDT act on another connection right
     # after CLOSED was reported, before the listening thread has released the slot): nothing is reported for the closed connection.
     # The window is a few milliseconds wide: the scenario is repeated
